@@ -4,11 +4,9 @@ From Verif Require Import Base.Wire Env.Header Env.HeaderProofs Env.Sig Env.Life
 Import ListNotations.
 Open Scope Z_scope.
 
-(* ---- three-valued verdicts ---- *)
+(* ---- verdicts ---- *)
 Lemma v3_and_ok a b : v3_and a b = VOk <-> a = VOk /\ b = VOk.
 Proof. destruct a, b; simpl; split; intro H; try discriminate; try (destruct H; discriminate); auto. Qed.
-Lemma v3_and_nopanic a b : a <> VPanic -> b <> VPanic -> v3_and a b <> VPanic.
-Proof. destruct a, b; simpl; congruence. Qed.
 
 Definition b2v (b : bool) : v3 := if b then VOk else VErr.
 Lemma v3_and_b2v a b : v3_and (b2v a) (b2v b) = b2v (a && b).
@@ -111,54 +109,33 @@ Proof.
 Qed.
 
 (* ==========================================================================================
-   the repaired code never panics in Validate, Verify, Sign or the CLI entry point *)
-Lemma validate_fixed_nopanic fx e : fix10 fx = true -> fix11 fx = true -> validate fx e <> PANIC.
+   Validate, Verify, Sign and the command-line entry point never dereference nil (any variant:
+   the nil guards of commit 3e1b1c1 are part of the shipped code) *)
+Lemma validate_nopanic fx e : validate fx e <> PANIC.
 Proof.
-  intros F10 F11. unfold validate. destruct (v3_and _ _) eqn:V; try discriminate.
-  - apply v3_and_ok in V as [Vh V]. apply v3_and_ok in V as [Vd _].
-    unfold v_doc in Vd. destruct (doc e) as [c|] eqn:Ed; [|discriminate].
-    unfold v_head in Vh. destruct (head e) as [h|] eqn:Eh; [|discriminate].
-    unfold validate_header in Vh. apply v3_and_ok in Vh as [_ Vh]. apply v3_and_ok in Vh as [Vg _].
-    unfold v_dig in Vg. destruct (dig h) as [d|] eqn:Edg; [|discriminate].
-    unfold verify_digest. rewrite Ed, Eh, Edg.
-    destruct (negb (seqb (alg d) sha256)); [discriminate|]. destruct (negb (seqb (dval d) (hash c))); discriminate.
-  - exfalso. revert V. apply v3_and_nopanic.
-    + unfold v_head. rewrite F11. destruct (head e); [apply validate_header_fixed_nopanic | discriminate].
-    + apply v3_and_nopanic.
-      * unfold v_doc. destruct (doc e) as [c|]; [destruct (vok c && _)|]; discriminate.
-      * unfold v_sigs. destruct (fix10 fx && _); discriminate.
+  unfold validate. destruct (v3_and _ _) eqn:V; try discriminate.
+  apply v3_and_ok in V as [Vh V]. apply v3_and_ok in V as [Vd _].
+  unfold v_doc in Vd. destruct (doc e) as [c|] eqn:Ed; [|discriminate].
+  unfold v_head in Vh. destruct (head e) as [h|] eqn:Eh; [|discriminate].
+  unfold validate_header in Vh. apply v3_and_ok in Vh as [_ Vh]. apply v3_and_ok in Vh as [Vg _].
+  unfold v_dig in Vg. destruct (dig h) as [d|] eqn:Edg; [|discriminate].
+  unfold verify_digest. rewrite Ed, Eh, Edg.
+  destruct (negb (seqb (alg d) sha256)); [discriminate|]. destruct (negb (seqb (dval d) (hash c))); discriminate.
 Qed.
-Lemma validate_repaired_nopanic e : validate repaired e <> PANIC.
-Proof. apply validate_fixed_nopanic; reflexivity. Qed.
-
-Lemma verify_signature_repaired_nopanic e s ks : verify_signature repaired e s ks <> VPanic.
-Proof.
-  unfold verify_signature. destruct ks as [|k0 r].
-  - destruct s; simpl; try discriminate. destruct (contains_opt _ _); discriminate.
-  - generalize (k0 :: r). intro l. induction l as [|k l IH]; simpl; [discriminate|].
-    destruct s; simpl; try exact IH. destruct (_ =? _); [|exact IH]. simpl. destruct (contains_opt _ _); discriminate.
-Qed.
-Lemma verify_all_repaired_nopanic e l ks : verify_all repaired e l ks <> VPanic.
-Proof.
-  induction l as [|s l IH]; simpl; [discriminate|]. apply v3_and_nopanic; [apply verify_signature_repaired_nopanic | exact IH].
-Qed.
-Lemma verify_repaired_nopanic e ks : verify repaired e ks <> PANIC.
-Proof.
-  unfold verify. destruct (sigs e) as [|s l]; [discriminate|].
-  pose proof (verify_all_repaired_nopanic e (s :: l) ks) as NP. destruct (verify_all _ _ _ _); congruence.
-Qed.
-Lemma sign_repaired_nopanic e k : snd (step repaired e (Sign k)) <> PANIC.
+Lemma verify_nopanic e ks : verify e ks <> PANIC.
+Proof. unfold verify. destruct (sigs e); [discriminate|]. destruct (verify_all _ _ _); discriminate. Qed.
+Lemma sign_nopanic fx e k : snd (step fx e (Sign k)) <> PANIC.
 Proof.
   rewrite sign_unfold. destruct (head e) as [h|]; [|discriminate]. cbv zeta.
-  pose proof (validate_repaired_nopanic (set_sigs e (sigs e ++ [Sig k h]))) as NP.
-  destruct (validate repaired _); simpl; congruence.
+  pose proof (validate_nopanic fx (set_sigs e (sigs e ++ [Sig k h]))) as NP.
+  destruct (validate fx _); simpl; congruence.
 Qed.
-Lemma cli_verify_repaired_nopanic e key : cli_verify repaired e key <> PANIC.
+Lemma cli_verify_nopanic fx e key : cli_verify fx e key <> PANIC.
 Proof.
   unfold cli_verify. destruct (parse_env _ _) as [e'|]; [|discriminate]. unfold cli_verify_parsed.
-  pose proof (validate_repaired_nopanic e') as NP. destruct (validate repaired e'); try congruence.
+  pose proof (validate_nopanic fx e') as NP. destruct (validate fx e'); try congruence.
   destruct key as [k|]; [|discriminate]. destruct (sigs e') as [|s0 l] eqn:Es; [discriminate|].
-  destruct s0; simpl; try discriminate. destruct (_ =? _); [|discriminate]. apply verify_repaired_nopanic.
+  destruct (verify_payload k s0); [|discriminate]. destruct (fix9 fx); [apply verify_nopanic | discriminate].
 Qed.
 
 (* ==========================================================================================
@@ -198,20 +175,14 @@ Proof. induction (sigs e) as [|s l IH]; simpl; [reflexivity|]. destruct s; simpl
 Lemma wf_no_nojws e : forallb is_real (sigs e) = true -> existsb is_nojws (sigs e) = false.
 Proof. induction (sigs e) as [|s l IH]; simpl; [reflexivity|]. destruct s; simpl; try discriminate. exact IH. Qed.
 
-Lemma validate_header_nilfree f signed h :
-  nil_free h ->
-  validate_header f signed h =
+Lemma validate_header_sound signed h :
+  validate_header signed h =
   b2v (head_sound h && (signed || match stamps h with [] => true | _ => false end)).
 Proof.
-  intros NF. destruct f; [rewrite validate_header_fix_irrelevant by exact NF|];
-  destruct NF as [N1 N2];
-  unfold validate_header, head_sound, v_uuid, v_dig, v_stamps, v_links; cbn [andb];
-  pose proof (detect_dup_stamps_nopanic [] (stamps h) eq_refl N1) as P1;
-  pose proof (detect_dup_links_nopanic [] (links h) eq_refl N2) as P2;
-  set (ds := detect_dup_stamps [] (stamps h)) in *; set (dl := detect_dup_links [] (links h)) in *;
-  clearbody ds dl;
+  unfold validate_header, head_sound, v_uuid, v_dig, v_stamps, v_links.
+  set (ds := detect_dup_stamps [] (stamps h)). set (dl := detect_dup_links [] (links h)). clearbody ds dl.
   destruct (is_empty (uuid h)); destruct (dig h) as [d|]; try destruct (is_empty (alg d) || is_empty (dval d));
-  destruct signed; destruct (stamps h) as [|s0 st]; destruct ds; destruct dl; simpl; try reflexivity; try congruence.
+  destruct signed; destruct (stamps h) as [|s0 st]; destruct ds; destruct dl; reflexivity.
 Qed.
 
 Lemma head_sound_dig h : head_sound h = true -> exists d, dig h = Some d.
@@ -221,13 +192,13 @@ Proof.
 Qed.
 
 Lemma validate_wf fx e h :
-  head e = Some h -> nil_free h -> forallb is_real (sigs e) = true ->
+  head e = Some h -> forallb is_real (sigs e) = true ->
   validate fx e =
   if (if signed e then valid_for_signing e else valid_unsigned e)
   then (if digest_matches hash e then OK else ERR EDigest) else ERR EValidation.
 Proof.
-  intros Eh NF R. unfold validate, v_head, v_doc, v_sigs, valid_for_signing, valid_unsigned, digest_matches, verify_digest.
-  rewrite Eh, (wf_no_nilsig e R), andb_false_r, (validate_header_nilfree _ _ _ NF).
+  intros Eh R. unfold validate, v_head, v_doc, v_sigs, valid_for_signing, valid_unsigned, digest_matches, verify_digest.
+  rewrite Eh, (wf_no_nilsig e R), andb_false_r, validate_header_sound.
   set (emp := match stamps h with [] => true | _ => false end).
   destruct (doc e) as [c|]; [|destruct (head_sound h && _), (signed e); reflexivity].
   destruct (head_sound h) eqn:HS.
@@ -236,53 +207,39 @@ Proof.
   - destruct (signed e), (vok c), (code c), emp; reflexivity.
 Qed.
 
-(* Verify on real signatures, repaired Contains *)
-Lemma verify_sig_keys_real fx e k h2 ks :
-  fix11 fx = true ->
-  verify_sig_keys fx e (Sig k h2) ks = b2v (existsb (Z.eqb k) ks && contains_opt (head e) h2).
+(* Verify on real signatures *)
+Lemma verify_sig_keys_real e k h2 ks :
+  verify_sig_keys e (Sig k h2) ks = b2v (existsb (Z.eqb k) ks && contains_opt (head e) h2).
 Proof.
-  intro F. induction ks as [|k0 r IH]; simpl; [reflexivity|].
+  induction ks as [|k0 r IH]; simpl; [reflexivity|].
   destruct (k =? k0) eqn:E; simpl.
-  - unfold head_contains. rewrite F. destruct (contains_opt _ _); reflexivity.
+  - unfold head_contains. destruct (contains_opt _ _); reflexivity.
   - exact IH.
 Qed.
-Lemma verify_signature_real fx e k h2 ks :
-  fix11 fx = true ->
-  verify_signature fx e (Sig k h2) ks = b2v (sig_verdict ks (sig_fact e (Sig k h2))).
+Lemma verify_signature_real e k h2 ks :
+  verify_signature e (Sig k h2) ks = b2v (sig_verdict ks (sig_fact e (Sig k h2))).
 Proof.
-  intro F. unfold verify_signature, sig_verdict. destruct ks as [|k0 r].
-  - simpl. unfold head_contains. rewrite F. destruct (contains_opt _ _); reflexivity.
-  - rewrite verify_sig_keys_real by exact F. reflexivity.
+  unfold verify_signature, sig_verdict. destruct ks as [|k0 r].
+  - simpl. unfold head_contains. destruct (contains_opt _ _); reflexivity.
+  - rewrite verify_sig_keys_real. reflexivity.
 Qed.
-Lemma verify_all_real fx e l ks :
-  fix11 fx = true -> forallb is_real l = true ->
-  verify_all fx e l ks = b2v (forallb (sig_verdict ks) (map (sig_fact e) l)).
+Lemma verify_all_real e l ks :
+  forallb is_real l = true ->
+  verify_all e l ks = b2v (forallb (sig_verdict ks) (map (sig_fact e) l)).
 Proof.
-  intros F. induction l as [|s l IH]; simpl; intro R; [reflexivity|].
+  induction l as [|s l IH]; simpl; intro R; [reflexivity|].
   apply andb_true_iff in R as [R1 R2]. destruct s as [k h2| |]; try discriminate.
-  rewrite verify_signature_real by exact F. rewrite IH by exact R2. apply v3_and_b2v.
+  rewrite verify_signature_real. rewrite IH by exact R2. apply v3_and_b2v.
 Qed.
-Lemma verify_wf fx e ks :
-  fix11 fx = true -> forallb is_real (sigs e) = true -> verify fx e ks = verify_tbl (abs hash e) ks.
+Lemma verify_tbl_sig a ks :
+  verify_tbl a ks = match a_contains a with [] => ERR ESignature | l => if forallb (sig_verdict ks) l then OK else ERR EValidation end.
+Proof. reflexivity. Qed.
+Lemma verify_wf e ks :
+  forallb is_real (sigs e) = true -> verify e ks = verify_tbl (abs hash e) ks.
 Proof.
-  intros F R. unfold verify, verify_tbl. cbn [abs a_contains]. destruct (sigs e) as [|s l] eqn:Es; [reflexivity|].
-  cbv beta iota. rewrite (verify_all_real fx e (s :: l) ks F R). cbn [map]. cbv beta iota. unfold b2v.
+  intros R. unfold verify, verify_tbl. cbn [abs a_contains]. destruct (sigs e) as [|s l] eqn:Es; [reflexivity|].
+  cbv beta iota. rewrite (verify_all_real e (s :: l) ks R). cbn [map]. cbv beta iota. unfold b2v.
   destruct (forallb (sig_verdict ks) _); reflexivity.
-Qed.
-
-Lemma add_stamp_nilfree l s : has_none l = false -> exists l', add_stamp l s = Ok l' /\ has_none l' = false.
-Proof.
-  induction l as [|[v|] l IH]; simpl; intro N; try discriminate.
-  - eexists; split; reflexivity.
-  - destruct (seqb (prv v) (prv s)); [eexists; split; [reflexivity | exact N]|].
-    destruct (IH N) as [l' [E N']]. rewrite E. eexists; split; [reflexivity | exact N'].
-Qed.
-Lemma append_link_nilfree l n : has_none l = false -> exists l', append_link l n = Ok l' /\ has_none l' = false.
-Proof.
-  induction l as [|[v|] l IH]; simpl; intro N; try discriminate.
-  - eexists; split; reflexivity.
-  - destruct (seqb (lkey v) (lkey n)); [eexists; split; [reflexivity | exact N]|].
-    destruct (IH N) as [l' [E N']]. rewrite E. eexists; split; [reflexivity | exact N'].
 Qed.
 
 Lemma abs_set_sigs_facts e l :
@@ -292,9 +249,9 @@ Lemma abs_set_sigs_facts e l :
 Proof. repeat split. Qed.
 
 Theorem outcome_follows_table fx e o :
-  fix11 fx = true -> wf e -> api_op o -> snd (step fx e o) = outcome_table (abs hash e) o.
+  wf e -> api_op o -> snd (step fx e o) = outcome_table (abs hash e) o.
 Proof.
-  intros F [[h [Eh [N1 N2]]] R] A. destruct o; simpl in A; try contradiction; clear A.
+  intros [[h Eh] R] A. destruct o; simpl in A; try contradiction; clear A.
   - (* Insert *) rewrite step_insert, Eh, calculate_outcome. reflexivity.
   - (* Calculate *) rewrite step_calculate, calculate_outcome. simpl. destruct (doc e); reflexivity.
   - (* EditDoc *) simpl. destruct (doc e); reflexivity.
@@ -303,36 +260,34 @@ Proof.
     assert (V : validate fx (set_sigs e (sigs e ++ [Sig k h])) = validate_tbl true (abs hash e)).
     { assert (R1 : forallb is_real (sigs (set_sigs e (sigs e ++ [Sig k h]))) = true)
         by (simpl; rewrite forallb_app, R; reflexivity).
-      rewrite (validate_wf fx (set_sigs e (sigs e ++ [Sig k h])) h Eh (conj N1 N2) R1), signed_app_sig. reflexivity. }
+      rewrite (validate_wf fx (set_sigs e (sigs e ++ [Sig k h])) h Eh R1), signed_app_sig. reflexivity. }
     rewrite V. change (outcome_table (abs hash e) (Sign k)) with (validate_tbl true (abs hash e)).
     destruct (validate_tbl true (abs hash e)); reflexivity.
   - (* Unsign *) reflexivity.
-  - (* AddStamp *) simpl. unfold with_head. rewrite Eh. destruct (add_stamp_nilfree (stamps h) (mkStamp p v) N1) as [l' [E _]].
-    rewrite E. reflexivity.
-  - (* AddLink *) simpl. unfold with_head. rewrite Eh. destruct (append_link_nilfree (links h) (mkLink k u) N2) as [l' [E _]].
-    rewrite E. reflexivity.
+  - (* AddStamp *) simpl. unfold with_head. rewrite Eh. reflexivity.
+  - (* AddLink *) simpl. unfold with_head. rewrite Eh. reflexivity.
   - simpl. unfold with_head. rewrite Eh. reflexivity.
   - simpl. unfold with_head. rewrite Eh. reflexivity.
   - simpl. unfold with_head. rewrite Eh. reflexivity.
-  - (* Validate *) simpl. rewrite (validate_wf fx e h Eh (conj N1 N2) R). reflexivity.
+  - (* Validate *) simpl. rewrite (validate_wf fx e h Eh R). reflexivity.
   - (* Verify *) simpl. apply verify_wf; assumption.
   - (* Reparse *) simpl. unfold reparse_with, parse_env. destruct (doc e); [|reflexivity].
     rewrite (wf_no_nojws e R), andb_false_r. reflexivity.
 Qed.
 
 Theorem outcome_determined_by_abs fx e1 e2 o :
-  fix11 fx = true -> wf e1 -> wf e2 -> api_op o -> abs hash e1 = abs hash e2 ->
+  wf e1 -> wf e2 -> api_op o -> abs hash e1 = abs hash e2 ->
   snd (step fx e1 o) = snd (step fx e2 o).
 Proof.
-  intros F W1 W2 A E. rewrite !outcome_follows_table by assumption. rewrite E. reflexivity.
+  intros W1 W2 A E. rewrite !outcome_follows_table by assumption. rewrite E. reflexivity.
 Qed.
 
 (* the statement's own four-fact reading of the three outcomes it names *)
 Corollary sign_outcome_four_facts fx e k :
-  fix11 fx = true -> wf e ->
+  wf e ->
   (snd (step fx e (Sign k)) = OK <-> valid_for_signing e = true /\ digest_matches hash e = true).
 Proof.
-  intros F W. rewrite (outcome_follows_table fx e (Sign k) F W I). simpl. unfold validate_tbl. simpl.
+  intros W. rewrite (outcome_follows_table fx e (Sign k) W I). simpl. unfold validate_tbl. simpl.
   destruct (valid_for_signing e), (digest_matches hash e); simpl; split; intro H; try discriminate; auto;
     destruct H; discriminate.
 Qed.
@@ -348,11 +303,11 @@ Proof.
 Qed.
 
 Corollary verify_outcome_four_facts fx e k :
-  fix11 fx = true -> wf e ->
+  wf e ->
   (snd (step fx e (Verify [k])) = OK <->
    signed e = true /\ forall s, In s (sigs e) -> exists h2, s = Sig k h2 /\ contains_opt (head e) h2 = true).
 Proof.
-  intros F W. rewrite (outcome_follows_table fx e (Verify [k]) F W I). destruct W as [_ R].
+  intros W. rewrite (outcome_follows_table fx e (Verify [k]) W I). destruct W as [_ R].
   change (outcome_table (abs hash e) (Verify [k])) with (verify_tbl (abs hash e) [k]).
   rewrite verify_tbl_ok. cbn [abs a_contains]. rewrite forallb_forall. split.
   - intros [NE FA]. split; [unfold signed; destruct (sigs e); [exfalso; apply NE; reflexivity | reflexivity]|].
@@ -369,26 +324,24 @@ Qed.
    well-formedness is kept by every API operation, so the table applies along every history *)
 Lemma wf_step fx e o : wf e -> api_op o -> wf (fst (step fx e o)).
 Proof.
-  intros [[h [Eh [N1 N2]]] R] A. destruct o; simpl in A; try contradiction; clear A.
+  intros [[h Eh] R] A. destruct o; simpl in A; try contradiction; clear A.
   - (* Insert *) rewrite step_insert, Eh.
-    destruct (calculate_head (set_doc e (Some d)) h Eh) as (h' & Eh' & Es & El & _).
-    split; [exists h'; rewrite Es, El; auto | rewrite calculate_sigs; exact R].
+    destruct (calculate_head (set_doc e (Some d)) h Eh) as (h' & Eh' & _).
+    split; [exists h'; exact Eh' | rewrite calculate_sigs; exact R].
   - (* Calculate *) rewrite step_calculate.
-    destruct (calculate_head e h Eh) as (h' & Eh' & Es & El & _).
-    split; [exists h'; rewrite Es, El; auto | rewrite calculate_sigs; exact R].
+    destruct (calculate_head e h Eh) as (h' & Eh' & _).
+    split; [exists h'; exact Eh' | rewrite calculate_sigs; exact R].
   - simpl. destruct (doc e); simpl; (split; [exists h; auto | exact R]).
   - simpl. destruct (doc e); simpl; (split; [exists h; auto | exact R]).
   - (* Sign *) rewrite sign_unfold, Eh. cbv zeta.
     destruct (validate fx _); cbn [fst]; (split; [exists h; auto|]); cbn [sigs set_sigs];
       [rewrite forallb_app, R; reflexivity | reflexivity | rewrite forallb_app, R; reflexivity].
   - simpl. split; [exists h; auto | reflexivity].
-  - (* AddStamp *) simpl. unfold with_head. rewrite Eh. destruct (add_stamp_nilfree (stamps h) (mkStamp p v) N1) as [l' [E N']].
-    rewrite E. simpl. split; [|exact R]. eexists. split; [reflexivity|]. simpl. auto.
-  - simpl. unfold with_head. rewrite Eh. destruct (append_link_nilfree (links h) (mkLink k u) N2) as [l' [E N']].
-    rewrite E. simpl. split; [|exact R]. eexists. split; [reflexivity|]. simpl. auto.
-  - simpl. unfold with_head. rewrite Eh. simpl. split; [|exact R]. eexists. split; [reflexivity|]. simpl. auto.
-  - simpl. unfold with_head. rewrite Eh. simpl. split; [|exact R]. eexists. split; [reflexivity|]. simpl. auto.
-  - simpl. unfold with_head. rewrite Eh. simpl. split; [|exact R]. eexists. split; [reflexivity|]. simpl. auto.
+  - simpl. unfold with_head. rewrite Eh. simpl. split; [eexists; reflexivity | exact R].
+  - simpl. unfold with_head. rewrite Eh. simpl. split; [eexists; reflexivity | exact R].
+  - simpl. unfold with_head. rewrite Eh. simpl. split; [eexists; reflexivity | exact R].
+  - simpl. unfold with_head. rewrite Eh. simpl. split; [eexists; reflexivity | exact R].
+  - simpl. unfold with_head. rewrite Eh. simpl. split; [eexists; reflexivity | exact R].
   - simpl. split; [exists h; auto | exact R].
   - simpl. split; [exists h; auto | exact R].
   - simpl. unfold reparse_with, parse_env. destruct (doc e); simpl; [|split; [exists h; auto | exact R]].
@@ -396,7 +349,7 @@ Proof.
 Qed.
 
 Lemma wf_new : wf new_envelope.
-Proof. split; [eexists; split; [reflexivity | split; reflexivity] | reflexivity]. Qed.
+Proof. split; [eexists; reflexivity | reflexivity]. Qed.
 
 Lemma wf_run fx e ops : wf e -> Forall api_op ops -> wf (run fx e ops).
 Proof.
@@ -416,9 +369,9 @@ Definition sig_good (s : sigent) : Prop :=
   exists k h c, s = Sig k h /\ dig h = Some (doc_digest hash c) /\ vok c = true /\ code c = true.
 
 Lemma sigs_good_step fx e o :
-  fix11 fx = true -> fix10 fx = true -> api_op o -> Forall sig_good (sigs e) -> Forall sig_good (sigs (fst (step fx e o))).
+  api_op o -> Forall sig_good (sigs e) -> Forall sig_good (sigs (fst (step fx e o))).
 Proof.
-  intros F11 F10 A G. destruct o; simpl in A; try contradiction; clear A.
+  intros A G. destruct o; simpl in A; try contradiction; clear A.
   - rewrite step_insert. destruct (head e); [rewrite calculate_sigs|]; exact G.
   - rewrite step_calculate, calculate_sigs. exact G.
   - simpl. destruct (doc e); exact G.
@@ -432,10 +385,10 @@ Proof.
       * rewrite Edg. destruct d as [a v]. simpl in Al, Dv. subst. reflexivity.
       * apply Cd. apply signed_app_sig.
     + constructor.
-    + exfalso. exact (validate_fixed_nopanic fx _ F10 F11 V).
+    + exfalso. exact (validate_nopanic fx _ V).
   - simpl. constructor.
-  - simpl. unfold with_head. destruct (head e) as [h|]; [|exact G]. destruct (add_stamp _ _); exact G.
-  - simpl. unfold with_head. destruct (head e) as [h|]; [|exact G]. destruct (append_link _ _); exact G.
+  - simpl. unfold with_head. destruct (head e) as [h|]; exact G.
+  - simpl. unfold with_head. destruct (head e) as [h|]; exact G.
   - simpl. unfold with_head. destruct (head e) as [h|]; exact G.
   - simpl. unfold with_head. destruct (head e) as [h|]; exact G.
   - simpl. unfold with_head. destruct (head e) as [h|]; exact G.
@@ -446,10 +399,10 @@ Proof.
 Qed.
 
 Theorem signatures_cover_valid_content fx ops :
-  fix11 fx = true -> fix10 fx = true -> Forall api_op ops ->
+  Forall api_op ops ->
   Forall sig_good (sigs (run fx new_envelope ops)).
 Proof.
-  intros F11 F10. assert (G0 : Forall sig_good (sigs new_envelope)) by constructor.
+  assert (G0 : Forall sig_good (sigs new_envelope)) by constructor.
   revert G0. generalize new_envelope. induction ops as [|o r IH]; simpl; intros e G A; [exact G|].
   inversion A; subst. apply IH; [apply sigs_good_step; assumption | assumption].
 Qed.
@@ -492,8 +445,8 @@ Proof.
   - rewrite sign_unfold. destruct (head e) as [h|]; [|exact R]. cbv zeta.
     destruct (validate fx _); simpl; try reflexivity; rewrite forallb_app, R; reflexivity.
   - reflexivity.
-  - simpl. unfold with_head. destruct (head e) as [h|]; [|exact R]. destruct (add_stamp _ _); exact R.
-  - simpl. unfold with_head. destruct (head e) as [h|]; [|exact R]. destruct (append_link _ _); exact R.
+  - simpl. unfold with_head. destruct (head e) as [h|]; exact R.
+  - simpl. unfold with_head. destruct (head e) as [h|]; exact R.
   - simpl. unfold with_head. destruct (head e); exact R.
   - simpl. unfold with_head. destruct (head e); exact R.
   - simpl. unfold with_head. destruct (head e); exact R.
@@ -553,8 +506,8 @@ Proof.
   - rewrite sign_unfold. destruct (head e) as [h|]; [|exact R]. cbv zeta.
     destruct (validate repaired _); simpl; try reflexivity; rewrite existsb_app, R; reflexivity.
   - reflexivity.
-  - simpl. unfold with_head. destruct (head e) as [h|]; [|exact R]. destruct (add_stamp _ _); exact R.
-  - simpl. unfold with_head. destruct (head e) as [h|]; [|exact R]. destruct (append_link _ _); exact R.
+  - simpl. unfold with_head. destruct (head e) as [h|]; exact R.
+  - simpl. unfold with_head. destruct (head e) as [h|]; exact R.
   - simpl. unfold with_head. destruct (head e); exact R.
   - simpl. unfold with_head. destruct (head e); exact R.
   - simpl. unfold with_head. destruct (head e); exact R.
@@ -608,32 +561,18 @@ End Proofs.
 Definition h0 : content -> str := fun c => int_bytes (ver c).
 Definition base0 : content := mkC 0 0 true false true true.
 
-(* defect 10: "sigs":[""] parses to an entry without JWS; the envelope counts as signed,
-   validates, and Verify dereferences nil *)
+(* defect 10 (what commit 3e1b1c1 left open): "sigs":[""] parses to an entry without JWS; the
+   envelope counts as signed and validates although nobody signed it - with stamps, which are
+   accepted only on signed envelopes.  (Verify now fails instead of dereferencing nil.) *)
 Lemma every_signature_is_real_shipped_refuted :
   exists ops, let e := run h0 shipped new_envelope ops in
     forallb is_real (sigs e) = false /\ signed e = true /\ validate h0 shipped e = OK /\
-    verify shipped e [] = PANIC /\ verify shipped e [0] = PANIC.
-Proof. exists [Insert base0; ReparseWithEmptySig]. vm_compute. repeat split. Qed.
-
-(* defect 11: nil head, nil digest, null link *)
-Lemma verify_never_panics_shipped_refuted :
-  (exists ops, verify shipped (run h0 shipped new_envelope ops) [0] = PANIC /\
-               ops = [Insert base0; Sign 0; ReparseNilHead]) /\
-  (exists ops, verify shipped (run h0 shipped new_envelope ops) [0] = PANIC /\
-               ops = [Insert base0; Sign 0; ReparseNilDig]) /\
-  (exists ops, validate h0 shipped (run h0 shipped new_envelope ops) = PANIC /\
-               ops = [Insert base0; ReparseNullLink]) /\
-  (exists ops, validate h0 shipped (run h0 shipped new_envelope ops) = PANIC /\
-               ops = [Insert base0; Sign 0; ReparseNullStamp; ReparseNullStamp]).
-Proof. repeat split; eexists; split; try reflexivity; vm_compute; reflexivity. Qed.
-
-(* consequence of defect 11: a Sign that panics in its validation never reaches the clean-up,
-   a caller that recovers holds an invalid envelope that counts as signed *)
-Lemma sign_panic_leaves_signature_shipped :
-  exists ops, let e := run h0 shipped new_envelope ops in
-    snd (step h0 shipped e (Sign 0)) = PANIC /\ signed (fst (step h0 shipped e (Sign 0))) = true /\ signed e = false.
-Proof. exists [Insert base0; ReparseNullLink]. vm_compute. repeat split. Qed.
+    (exists h, head e = Some h /\ stamps h <> []) /\
+    verify e [] = ERR EValidation /\ verify e [0] = ERR EValidation.
+Proof.
+  exists [Insert base0; ReparseWithEmptySig; AddStamp (bs "p1") (bs "v1")]. vm_compute.
+  repeat split; try reflexivity. eexists. split; [reflexivity | discriminate].
+Qed.
 
 (* outside the statement's operations: Sign on an envelope without header returns before it
    touches the signatures, so "a failed signing leaves the envelope unsigned" needs a header *)
@@ -641,6 +580,14 @@ Lemma failed_sign_without_header_keeps_signatures :
   exists ops fx, let e := run h0 fx new_envelope ops in
     snd (step h0 fx e (Sign 0)) = ERR EValidation /\ signed (fst (step h0 fx e (Sign 0))) = true.
 Proof. exists [Insert base0; Sign 0; ReparseNilHead], repaired. vm_compute. split; reflexivity. Qed.
+
+(* the witnesses of defect 11 (fixed in the repository by commit 3e1b1c1) no longer panic *)
+Example former_nil_dereferences_return :
+  verify (run h0 shipped new_envelope [Insert base0; Sign 0; ReparseNilHead]) [0] = ERR EValidation /\
+  verify (run h0 shipped new_envelope [Insert base0; Sign 0; ReparseNilDig]) [0] = ERR EValidation /\
+  validate h0 shipped (run h0 shipped new_envelope [Insert base0; ReparseNullLink]) = OK /\
+  validate h0 shipped (run h0 shipped new_envelope [Insert base0; Sign 0; ReparseNullStamp; ReparseNullStamp]) = OK.
+Proof. vm_compute. repeat split. Qed.
 
 (* non-vacuity: a history on which all four facts hold and Sign succeeds; one where it is refused *)
 Example sign_succeeds_example :
